@@ -85,6 +85,9 @@ type callRec struct {
 	err      error
 	arrived  bool // request seen by the server
 	activeAt []string
+	rrAt     []string // what the round-robin selector itself routes over, at call start and end:
+	rrT1     []string // the status check updates the three selectors one after the other
+	blocked  map[string]bool // hosts whose adapter was marked blocked at call start
 }
 
 type sample struct {
@@ -446,6 +449,13 @@ func (s *S) Run(c *scen.Ctx) {
 		var rsp requestf.ResponsePacket
 		cr.t0 = simrt.Elapsed()
 		cr.activeAt = s.activeNow()
+		cr.rrAt, _, _ = tars.VerifRotation(s.prx)
+		cr.blocked = map[string]bool{}
+		for _, a := range tars.VerifAdapters(s.prx) {
+			if !a.Status {
+				cr.blocked[a.Host] = true
+			}
+		}
 		ctype := byte(0)
 		if someOneWay && simrt.Draw(4, "c15.oneway") == 3 {
 			ctype, cr.oneway = 1, true
@@ -454,6 +464,7 @@ func (s *S) Run(c *scen.Ctx) {
 		cancelCall()
 		cr.t1 = simrt.Elapsed()
 		cr.activeT1 = s.activeNow()
+		cr.rrT1, _, _ = tars.VerifRotation(s.prx)
 		cr.err = err
 		ip, _ := current.GetServerIPFromContext(ctx)
 		cr.host = ip
@@ -660,7 +671,10 @@ func (s *S) Check(c *scen.Ctx, res *simrt.Result) {
 			if cr.host != n.host {
 				continue
 			}
-			isProbe := !has(cr.activeAt, n.host)
+			// a probe goes to an endpoint that is outside the rotation because its adapter is blocked.
+			// (With calls on the ticker grid a healthy endpoint that a refresh left out can be put back
+			// by the status check between the snapshot and the selection: an ordinary call, not a probe.)
+			isProbe := !has(cr.activeAt, n.host) && cr.blocked[n.host]
 			// (both at the start and at the end of the call: a status check in the same instant may
 			// have emptied the rotation between the snapshot and the selection, and then any
 			// endpoint is a legitimate target)
@@ -1055,7 +1069,7 @@ func (s *S) checkManager(c *scen.Ctx) {
 		seen := map[string]int{}
 		for j := i; j < i+n; j++ {
 			cr := s.calls[j]
-			if !sameSet(cr.activeAt, set) || !sameSet(cr.activeT1, set) || cr.host == "" || !has(set, cr.host) {
+			if !sameSet(cr.activeAt, set) || !sameSet(cr.activeT1, set) || !sameSet(cr.rrAt, set) || !sameSet(cr.rrT1, set) || cr.host == "" || !has(set, cr.host) {
 				ok = false
 				break
 			}
